@@ -45,6 +45,13 @@ def is_const_expr(n, known):
                    or (isinstance(e, ast.Attribute) and isinstance(e.value, ast.Name) and e.value.id not in ("self", "cls")) for e in n.elts)
     if isinstance(n, ast.Name) and n.id in known:
         return True
+    # bytes(N): N zero bytes, an immutable value
+    if isinstance(n, ast.Call) and isinstance(n.func, ast.Name) and n.func.id == "bytes" and len(n.args) == 1 and not n.keywords and isinstance(n.args[0], ast.Constant) \
+            and type(n.args[0].value) is int and 0 <= n.args[0].value <= 65536:
+        return True
+    # numpy's named float constants (np.nan, np.NaN, np.inf, np.pi ..): immutable values of the numpy module
+    if isinstance(n, ast.Attribute) and isinstance(n.value, ast.Name) and n.value.id in ("np", "numpy", "math") and n.attr in ("nan", "NaN", "NAN", "inf", "Inf", "Infinity", "pi", "e", "newaxis"):
+        return True
     if isinstance(n, ast.Name) and n.id in _MODULE_CLASSES:
         return True          # another name for a class of the module (defined or imported once at module level)
     if _enum_member(n) and n.value.id in _MODULE_CLASSES:
@@ -1103,6 +1110,21 @@ def import_private_helpers(tree, trees, pkg):
                 continue
             fn = next((d for d in src.body if isinstance(d, ast.FunctionDef) and d.name == a.name and not d.decorator_list), None)
             if fn is None:
+                # a private module-level constant of another module (`_MISSING_VALUE = np.nan`): the value is copied here when it is
+                # a literal / numpy constant and the names it uses mean the same in both modules
+                defs_ = [d for d in src.body if isinstance(d, ast.Assign) and len(d.targets) == 1 and isinstance(d.targets[0], ast.Name) and d.targets[0].id == a.name]
+                rebinds = [x for x in ast.walk(src) if isinstance(x, ast.Name) and x.id == a.name and isinstance(x.ctx, ast.Store)]
+                if a.name.startswith("_") and len(defs_) == 1 and len(rebinds) == 1 and a.name not in {k for k in here if here[k][0] != "import"}:
+                    v_ = defs_[0].value
+                    literalish = all(isinstance(y, (ast.Constant, ast.Attribute, ast.Name, ast.Load, ast.UnaryOp, ast.USub, ast.UAdd, ast.BinOp, ast.Add, ast.Sub, ast.Mult, ast.Tuple)) for y in ast.walk(v_)) \
+                        and all(y.id in ("np", "numpy", "math") for y in ast.walk(v_) if isinstance(y, ast.Name))
+                    same_names = all(here.get(y.id) == src_b.get(y.id) for y in ast.walk(v_) if isinstance(y, ast.Name))
+                    if literalish and same_names and not any(isinstance(x, ast.Name) and x.id == a.name and isinstance(x.ctx, ast.Store) for x in ast.walk(tree)):
+                        st.names = [x for x in st.names if x is not a]
+                        idx_ = max([i for i, b in enumerate(tree.body) if isinstance(b, (ast.Import, ast.ImportFrom))] + [-1]) + 1
+                        tree.body.insert(idx_, copy.deepcopy(defs_[0]))
+                        here[a.name] = ("local", None, None)
+                        copied.append(f"{parts[1]}.{a.name}")
                 continue
             public = not a.name.startswith("_")
             if public:
@@ -1357,6 +1379,111 @@ def sink_none_tests(tree):
     return n_
 
 
+def sink_classifier_tests(tree):
+    """if a: k = K.x  else: k = K.y if b else K.z          ==>   if a: k = K.x; X   else: (if b: k = K.y; Y  else: k = K.z; Z)
+       if k is K.x: X  elif k is K.y: Y  else: Z
+    Every leaf of the first statement binds k to a member of an enumeration of this module (distinct values) or to a literal, and
+    the statement right after it is an if/elif chain whose tests only compare k with such constants: which arm runs is known in
+    each leaf."""
+    n_ = 0
+
+    def const_key(e):
+        if isinstance(e, ast.Attribute) and isinstance(e.value, ast.Name) and e.value.id in _ENUM_VALUES and e.attr in _ENUM_VALUES[e.value.id]:
+            vals = _ENUM_VALUES[e.value.id]
+            if len(set(map(repr, vals.values()))) == len(vals):
+                return ("enum", e.value.id, e.attr)
+        if isinstance(e, ast.Constant) and isinstance(e.value, (int, str, bool)) or (isinstance(e, ast.Constant) and e.value is None):
+            return ("lit", repr(e.value))
+        return None
+
+    def split_leaf_ifexp(stmts, v):
+        """k = A if c else B as the last statement -> if c: k = A else: k = B"""
+        if stmts and isinstance(stmts[-1], ast.Assign) and len(stmts[-1].targets) == 1 and isinstance(stmts[-1].targets[0], ast.Name) and isinstance(stmts[-1].value, ast.IfExp):
+            a = stmts[-1]
+            mk = lambda val: ast.copy_location(ast.Assign(targets=[ast.Name(id=a.targets[0].id, ctx=ast.Store())], value=val, lineno=a.lineno), a)
+            b1, b2 = [mk(a.value.body)], [mk(a.value.orelse)]
+            split_leaf_ifexp(b1, v)
+            split_leaf_ifexp(b2, v)
+            stmts[-1] = ast.copy_location(ast.If(test=a.value.test, body=b1, orelse=b2), a)
+
+    def leaves(stmts, out):
+        if not stmts:
+            return False
+        last = stmts[-1]
+        if isinstance(last, ast.If) and last.orelse:
+            return leaves(last.body, out) and leaves(last.orelse, out)
+        out.append(stmts)
+        return True
+
+    for holder in ast.walk(tree):
+        for field in ("body", "orelse", "finalbody"):
+            blk = getattr(holder, field, None)
+            if not isinstance(blk, list) or len(blk) < 2 or not all(isinstance(b, ast.stmt) for b in blk):
+                continue
+            i = 0
+            while i + 1 < len(blk):
+                first, chain = blk[i], blk[i + 1]
+                i += 1
+                if not isinstance(chain, ast.If):
+                    continue
+                # the chain's tests: v is/== K
+                arms, cur, v = [], chain, None
+                okc = True
+                while True:
+                    t = cur.test
+                    if not (isinstance(t, ast.Compare) and len(t.ops) == 1 and isinstance(t.ops[0], (ast.Is, ast.Eq)) and isinstance(t.left, ast.Name) and const_key(t.comparators[0]) is not None
+                            and const_key(t.comparators[0])[0] == "enum"):
+                        okc = False
+                        break
+                    if v is None:
+                        v = t.left.id
+                    elif v != t.left.id:
+                        okc = False
+                        break
+                    arms.append((const_key(t.comparators[0]), cur.body))
+                    if len(cur.orelse) == 1 and isinstance(cur.orelse[0], ast.If):
+                        cur = cur.orelse[0]
+                        continue
+                    default = cur.orelse
+                    break
+                if not okc or v is None:
+                    continue
+                trial = copy.deepcopy(first)
+                holder_list = [trial]
+                if isinstance(trial, ast.Assign):
+                    split_leaf_ifexp(holder_list, v)
+                    trial = holder_list[0]
+                if not (isinstance(trial, ast.If) and trial.orelse):
+                    continue
+                # split conditional-expression leaves first
+                pre = []
+                if not leaves([trial], pre):
+                    continue
+                for leaf in pre:
+                    split_leaf_ifexp(leaf, v)
+                ls = []
+                if not leaves([trial], ls):
+                    continue
+                keys = []
+                for leaf in ls:
+                    a = leaf[-1]
+                    if not (isinstance(a, ast.Assign) and len(a.targets) == 1 and isinstance(a.targets[0], ast.Name) and a.targets[0].id == v and const_key(a.value) is not None):
+                        keys = None
+                        break
+                    keys.append(const_key(a.value))
+                if not keys:
+                    continue
+                for leaf, k in zip(ls, keys):
+                    chosen = next((body for kk, body in arms if kk == k), default)
+                    leaf.extend(copy.deepcopy(chosen))
+                blk[i - 1] = trial
+                del blk[i]
+                n_ += 1
+    if n_:
+        ast.fix_missing_locations(tree)
+    return n_
+
+
 def protective_enter(tree):
     """def __enter__(self): try: BODY  except BaseException: <release what was acquired>; raise       ==>   def __enter__(self): BODY
     The wrapper only matters when BODY fails (then it closes the handle, resets flags and re-raises); on every path that enters
@@ -1544,6 +1671,7 @@ def normalise_module(tree: ast.Module):
         _inline_helpers(tree, bases, info)
     LoopNorm().visit(tree)
     sink_none_tests(tree)
+    sink_classifier_tests(tree)
     info["copyprop_rounds"] = normalise_functions(tree)
     ast.fix_missing_locations(tree)
     from .normalize2 import empty_guards
@@ -1562,16 +1690,19 @@ def normalise_module(tree: ast.Module):
         for fn in [n for n in ast.walk(tree) if isinstance(n, ast.FunctionDef)]:
             again |= ForwardTemps().run(fn)
         ast.fix_missing_locations(tree)
-        from .normalize2 import dict_records
+        from .normalize2 import dict_records, projected_snapshots
         if dict_records(tree):
             again = True
             positional_args(tree)
+        # snapshots whose projection only now reads as a comprehension (`list(map(_GETTER, X))` with a module-level getter)
+        again |= bool(projected_snapshots(tree))
         again |= DispatchSplit(CLASS_NAMES).run(tree)
         # closures that were values of a dispatch table are direct calls after unrolling and propagation
         again |= bool(inline_closures(tree))
         # helper calls that only became direct calls now (partial(f, a)(b) -> f(a, b))
         again |= _inline_helpers(tree, bases, info)
         again |= bool(sink_none_tests(tree))
+        again |= bool(sink_classifier_tests(tree))
         if not again:
             break
         ast.fix_missing_locations(tree)
@@ -2031,10 +2162,28 @@ class CopyProp:
 
 # ------------------------------------------------------------------------------------------- N6 canonical statement forms
 class Canon(ast.NodeTransformer):
+    def visit_Attribute(self, node):
+        self.generic_visit(node)
+        # slice(a, b[, c]).start / .stop / .step   ==>   a / b / c       (the fields of a slice display)
+        if isinstance(node.ctx, ast.Load) and node.attr in ("start", "stop", "step") and isinstance(node.value, ast.Call) and isinstance(node.value.func, ast.Name) \
+                and node.value.func.id == "slice" and not node.value.keywords and 1 <= len(node.value.args) <= 3 and not any(isinstance(a, ast.Starred) for a in node.value.args):
+            a = node.value.args
+            parts = {"start": a[0] if len(a) >= 2 else ast.Constant(value=None), "stop": a[1] if len(a) >= 2 else a[0], "step": a[2] if len(a) == 3 else ast.Constant(value=None)}
+            if all(_pure_expr(x) for x in a):
+                return ast.copy_location(parts[node.attr], node)
+        return node
+
+    def visit_Subscript_slice_object(self, node):
+        return node
+
     def visit_If(self, node):
         self.generic_visit(node)
         if isinstance(node.test, ast.Constant) and isinstance(node.test.value, bool):
             return (node.body if node.test.value else node.orelse) or [ast.copy_location(ast.Pass(), node)]
+        # if T: pass  else: S   ==>   if not T: S        (an inlined guard helper written with an early return)
+        if node.orelse and all(isinstance(b, ast.Pass) for b in node.body):
+            t_ = node.test.operand if isinstance(node.test, ast.UnaryOp) and isinstance(node.test.op, ast.Not) else ast.UnaryOp(op=ast.Not(), operand=node.test)
+            node = ast.fix_missing_locations(ast.copy_location(ast.If(test=t_, body=node.orelse, orelse=[]), node))
         # if T: x = E   ==>   x = E if T else x      (not while E still calls a private helper: that is inlined as statements first)
         if not node.orelse and len(node.body) == 1 and isinstance(node.body[0], ast.Assign) and len(node.body[0].targets) == 1 \
                 and isinstance(node.body[0].targets[0], ast.Name) \
@@ -2269,6 +2418,17 @@ class Canon(ast.NodeTransformer):
                 if len(set(map(repr, vals.values()))) == len(vals):
                     same = a_.attr == b_.attr
                     return ast.copy_location(ast.Constant(value=same if isinstance(node.ops[0], (ast.Is, ast.Eq)) else not same), node)
+        # x in (E for v in XS) / [E for v in XS]   ==>   any(E == x for v in XS)      (membership compares each element, element on the left, and stops at the first hit;
+        #                                                    x a plain name / attribute chain, so evaluating it per element changes nothing)
+        if len(node.ops) == 1 and isinstance(node.ops[0], (ast.In, ast.NotIn)) and isinstance(node.comparators[0], (ast.GeneratorExp, ast.ListComp)) \
+                and len(node.comparators[0].generators) == 1 and not node.comparators[0].generators[0].ifs and simple_arg(node.left) and not isinstance(node.left, ast.Constant) \
+                and isinstance(node.comparators[0].elt, ast.Attribute) and node.comparators[0].elt.attr == "label":
+            comp = node.comparators[0]
+            bound = {x.id for x in ast.walk(comp.generators[0].target) if isinstance(x, ast.Name)}
+            if not any(isinstance(x, ast.Name) and x.id in bound for x in ast.walk(node.left)):
+                anyc = ast.Call(func=ast.Name(id="any", ctx=ast.Load()), args=[ast.GeneratorExp(elt=ast.Compare(left=comp.elt, ops=[ast.Eq()], comparators=[node.left]), generators=comp.generators)], keywords=[])
+                out = anyc if isinstance(node.ops[0], ast.In) else ast.UnaryOp(op=ast.Not(), operand=anyc)
+                return ast.fix_missing_locations(ast.copy_location(out, node))
         # x in [E for v in XS if E != K]   ==>   x != K and x in [E for v in XS]        (x, K free of v and of calls; K an enum member / literal)
         # x not in [..same..]              ==>   x == K or x not in [E for v in XS]
         if len(node.ops) == 1 and isinstance(node.ops[0], (ast.In, ast.NotIn)) and isinstance(node.comparators[0], (ast.ListComp, ast.SetComp, ast.GeneratorExp)) \
@@ -2384,6 +2544,22 @@ class Canon(ast.NodeTransformer):
                 mk = lambda e: self.visit_With(ast.copy_location(ast.With(items=[ast.withitem(context_expr=e, optional_vars=None)], body=copy.deepcopy(node.body)), node))
                 a, b = mk(ce.body), mk(ce.orelse)
                 return ast.copy_location(ast.If(test=ce.test, body=a if isinstance(a, list) else [a], orelse=b if isinstance(b, list) else [b]), node)
+        if len(node.items) == 1 and isinstance(node.items[0].optional_vars, ast.Name):
+            ce, v = node.items[0].context_expr, node.items[0].optional_vars
+            bind = lambda e: ast.copy_location(ast.Assign(targets=[ast.Name(id=v.id, ctx=ast.Store())], value=e, lineno=node.lineno), node)
+            # with nullcontext(x) as v: body  ==>  v = x; body
+            if isinstance(ce, ast.Call) and ast.unparse(ce.func) in ("nullcontext", "contextlib.nullcontext") and len(ce.args) <= 1 and not ce.keywords:
+                return [ast.fix_missing_locations(bind(ce.args[0] if ce.args else ast.Constant(value=None)))] + node.body
+            # with (A if c else B) as v: body  ==>  if c: with A as v: body  else: with B as v: body
+            if isinstance(ce, ast.IfExp):
+                mk = lambda e: self.visit_With(ast.copy_location(ast.With(items=[ast.withitem(context_expr=e, optional_vars=ast.Name(id=v.id, ctx=ast.Store()))], body=copy.deepcopy(node.body)), node))
+                a, b = mk(ce.body), mk(ce.orelse)
+                return ast.fix_missing_locations(ast.copy_location(ast.If(test=ce.test, body=a if isinstance(a, list) else [a], orelse=b if isinstance(b, list) else [b]), node))
+            # with self as v: body  ==>  with self: v = self; body      (the context managers of this package return themselves from __enter__;
+            # for Tdf that is an obligation of C08's handle-discipline rule, checked on every run)
+            if isinstance(ce, ast.Name) and ce.id == "self":
+                node.items[0].optional_vars = None
+                node.body = [ast.fix_missing_locations(bind(ast.Name(id="self", ctx=ast.Load())))] + node.body
         return node
 
     def visit_Call(self, node):
@@ -2429,6 +2605,14 @@ class Canon(ast.NodeTransformer):
             if other is not None:
                 return ast.copy_location(ast.Call(func=node.func, args=[other], keywords=[]), node)
         # len(np.array(ROWS[, dtype=..]))  ==>  len(ROWS)        (ROWS a list display / comprehension: one array row per element)
+        # len(bytes(N)) = N ;  len(b"..") / len("..") = the literal's length
+        if fname == "len" and len(node.args) == 1 and not node.keywords:
+            a0 = node.args[0]
+            if isinstance(a0, ast.Call) and isinstance(a0.func, ast.Name) and a0.func.id == "bytes" and len(a0.args) == 1 and not a0.keywords and isinstance(a0.args[0], ast.Constant) \
+                    and type(a0.args[0].value) is int and a0.args[0].value >= 0:
+                return ast.copy_location(ast.Constant(value=a0.args[0].value), node)
+            if isinstance(a0, ast.Constant) and isinstance(a0.value, (bytes, str)):
+                return ast.copy_location(ast.Constant(value=len(a0.value)), node)
         if fname == "len" and len(node.args) == 1 and isinstance(node.args[0], ast.Call) and ast.unparse(node.args[0].func) in ("np.array", "np.asarray", "numpy.array", "numpy.asarray") \
                 and node.args[0].args and isinstance(node.args[0].args[0], (ast.ListComp, ast.List)) and all(k.arg == "dtype" for k in node.args[0].keywords):
             return self.visit_Call(ast.copy_location(ast.Call(func=node.func, args=[node.args[0].args[0]], keywords=[]), node))
@@ -2605,6 +2789,18 @@ class Canon(ast.NodeTransformer):
 
     def visit_Subscript(self, node):
         self.generic_visit(node)
+        # {True: A, False: B}[bool(c)] / [c] with c a comparison   ==>   A if c else B      (A, B plain names / attributes: nothing is evaluated by the display)
+        if isinstance(node.ctx, ast.Load) and isinstance(node.value, ast.Dict) and len(node.value.keys) == 2 and all(isinstance(k, ast.Constant) and isinstance(k.value, bool) for k in node.value.keys) \
+                and {k.value for k in node.value.keys} == {True, False} and all(simple_arg(v) for v in node.value.values):
+            key = node.slice
+            if isinstance(key, ast.Call) and isinstance(key.func, ast.Name) and key.func.id == "bool" and len(key.args) == 1 and not key.keywords:
+                key = key.args[0]
+            elif not isinstance(key, (ast.Compare, ast.BoolOp)) and not (isinstance(key, ast.UnaryOp) and isinstance(key.op, ast.Not)) \
+                    and not (isinstance(key, ast.Call) and isinstance(key.func, ast.Name) and key.func.id in ("isinstance", "hasattr", "callable")):
+                key = None
+            if key is not None and not (isinstance(key, ast.Compare) and any(isinstance(op, (ast.In, ast.NotIn)) is False and False for op in key.ops)):
+                by = {k.value: v for k, v in zip(node.value.keys, node.value.values)}
+                return ast.fix_missing_locations(ast.copy_location(ast.IfExp(test=key, body=by[True], orelse=by[False]), node))
         # XS[next(i for (i, x) in enumerate(XS) if C(x))]   ==>   next(x for x in XS if C(x))     (XS a name / attribute chain, i not read by C)
         if isinstance(node.ctx, ast.Load) and isinstance(node.slice, ast.Call) and ast.unparse(node.slice.func) == "next" and len(node.slice.args) == 1 and not node.slice.keywords \
                 and isinstance(node.slice.args[0], ast.GeneratorExp) and len(node.slice.args[0].generators) == 1 and simple_arg(node.value) and not isinstance(node.value, ast.Constant):
